@@ -6,11 +6,11 @@ BASE = ("cd /repo && cargo nextest run --workspace --no-fail-fast --test-threads
         "|| cargo test --workspace --no-fail-fast --offline")
 
 CHECKS = {
- "C06": dict(cat="exploration", tech="runtime monitor: independent VLQ/source-map decoder over real encoder output (exhaustive range) + SourceWriter call histories vs chunk-position model",
-   text="Every integer in [-2^22,2^22] plus boundary values is encoded by the real base64_vlq and decoded by an independent decoder (exhaustive for that range). Random write/write_for/indent/dedent histories are run on the real SourceWriter and every decoded segment is compared with where the chunk really is in the produced text. Holds only on the histories observed.",
+ "C06": dict(cat="exploration", tech="runtime monitor: independent VLQ/source-map decoder over real encoder output (exhaustive range) + SourceWriter call histories vs chunk-position model + every .map written by the real CLI on generated projects decoded and checked against reference token tables (validity, token starts, names, completeness incl. imported fragments)",
+   text="Every integer in [-2^22,2^22] plus boundary values is encoded by the real base64_vlq and decoded by an independent decoder (exhaustive for that range). Random write/write_for/indent/dedent histories are run on the real SourceWriter and every decoded segment is compared with where the chunk really is in the produced text. Generated multi-file projects (all three modes, five output layouts, fragment imports, hostile trivia) are run through the real CLI; each emitted map is decoded and every segment checked (order, inside generated text, source index, sources resolve to input files, original position at a reference-lexer token start or just past the mapped name, name = token or definition name), then completeness per type, object/input field, operation and fragment including imported ones. Holds only on the histories and projects observed.",
    note="trusts harness/nqv/src/srcmap.rs (decoder written from the Source Map v3 text); nameless segments may sit in the indentation before their chunk", ref="DESIGN.md §5 C06"),
- "C20": dict(cat="exploration", tech="runtime monitor: real relative_path/resolve_relative_path/normalize_path vs reference path algebra, bounded-exhaustive + random",
-   text="All pairs of absolute non-escaping paths over {x,y,.,..} up to depth 5 (quick) / 6 (thorough) are pushed through the real functions and compared with a component-list reference (exhaustive for that sub-space), then random deeper paths with repeated separators and trailing slashes.",
+ "C20": dict(cat="exploration", tech="runtime monitor: real relative_path/resolve_relative_path/normalize_path vs reference path algebra, bounded-exhaustive + random; end-to-end: schema import specifier and map `sources` of real CLI outputs resolved against the files on disk",
+   text="All pairs of absolute non-escaping paths over {x,y,.,..} up to depth 5 (quick) / 6 (thorough) are pushed through the real functions and compared with a component-list reference (exhaustive for that sub-space), then random deeper paths with repeated separators and trailing slashes. End-to-end: generated projects with schemaOutput above/below/beside the inputs are run through the real CLI and the `import type * as Schema` specifier of each declaration file and every `sources` entry must resolve (TypeScript .js -> .d.ts/.ts rule) to the real file.",
    note="trusts the 10-line reference normaliser; B being A's own directory/ancestor is outside the './' prefix clause (B is a file)", ref="DESIGN.md §5 C20"),
 }
 CHECKS.update({
